@@ -29,6 +29,7 @@ import (
 	"path/filepath"
 	"runtime"
 	"sort"
+	"strconv"
 	"strings"
 	"sync"
 	"sync/atomic"
@@ -715,6 +716,10 @@ func (s *vfC14Sys) step(op vfh.Op) (string, string, any, any) {
 	case "upsert":
 		p, t := op.S("p"), op.S("t")
 		f := func(x int) int { return s.scale(s.unscale(x) + 1) }
+		if op.Has("set") { // ledger-driven histories: the upsert function returns a fixed value
+			set := op.I("set")
+			f = func(int) int { return set }
+		}
 		s.cm.UpsertTag(s.pid[p], t, f)
 		s.touch(p)
 		s.ltags[p][t] = f(s.ltags[p][t])
@@ -2246,6 +2251,14 @@ func vfC14DecayHistory(t *testing.T, res *vfh.Result, seed int64, h int) {
 					drop(p) // the entry goes with the last connection, and every tag with it
 				}
 			}
+		case c < 17 && rnd.Intn(2) == 0:
+			if rnd.Intn(2) == 0 {
+				say("Protect(%s, x)", p.name)
+				cm.Protect(p.id, "x")
+			} else {
+				say("Unprotect(%s, x)", p.name)
+				cm.Unprotect(p.id, "x")
+			}
 		case c < 18:
 			say("clock +1 unit")
 			clk.Add(vfC14Unit)
@@ -2319,3 +2332,119 @@ func vfC14DecayHistory(t *testing.T, res *vfh.Result, seed int64, h int) {
 }
 
 const vfC14Absent = -1 << 30
+
+// ---------------------------------------------------------------------------------------------
+// the VALUE dimension at its ends: ledger-driven histories with exact (big-int) arithmetic
+
+var vfC14ExtremeSet = []int{math.MinInt, -(1 << 62), -100, -1, 0, 1, 100, 1 << 62, math.MaxInt}
+
+func vfC14Num(v int) json.Number { return json.Number(strconv.Itoa(v)) }
+
+func TestVerifC14Extremes(t *testing.T) {
+	vfC14Silence()
+	res := vfh.NewResult()
+	defer func() {
+		if err := res.Write(); err != nil {
+			t.Fatal(err)
+		}
+	}()
+	res.Rule = "one case = one seeded history on 4 peers (one or two connections each) with tag values drawn from {MinInt, -2^62, -100, -1, 0, 1, 100, 2^62, MaxInt}: TagPeer/UntagPeer/UpsertTag before and after Connected, Disconnected and re-Connected, Protect/Unprotect, clock units, TrimOpenConns and ForceTrim; even histories use ONE tag name (no sum can leave the int range: every clause must hold exactly, with totals compared as big integers), odd histories use three tag names (sums may overflow: a disagreement that involves a total outside the int range is the class tag-sum-overflows-int)"
+	histories := 300
+	if vfh.Thorough() {
+		histories = 3000
+	}
+	seen := map[string]bool{}
+	for h := 0; h < histories; h++ {
+		synctest.Test(t, func(t *testing.T) {
+			if m := vfC14ExtremeHistory(t, res, vfh.Seed()*9_000_011+int64(h), h); m != nil && !seen[m.Class] {
+				seen[m.Class] = true
+				res.AddMismatch(*m)
+			}
+		})
+	}
+}
+
+func vfC14ExtremeHistory(t *testing.T, res *vfh.Result, seed int64, h int) *vfh.Mismatch {
+	rnd := rand.New(rand.NewSource(seed))
+	cfg := vfC14Cfg{Low: 1 + rnd.Intn(2), High: 3, Grace: 1, MaxAge: 2, Peers: []string{"p1", "p2", "p3", "p4"}, Name: "extremes",
+		Conns: map[string]vfC14ConnCfg{"p1a": {P: "p1"}, "p1b": {P: "p1", Inb: true, St: 1}, "p2a": {P: "p2"}, "p3a": {P: "p3", Inb: true}, "p4a": {P: "p4", St: 2}}}
+	sys, err := vfC14New(cfg)
+	if err != nil {
+		t.Fatal(err)
+	}
+	defer sys.close()
+	synctest.Wait()
+	tagNames := []string{"a"}
+	if h%2 == 1 {
+		tagNames = []string{"a", "b", "c"}
+	}
+	conns := []string{"p1a", "p1b", "p2a", "p3a", "p4a"}
+	var hist []vfh.Op
+	for i := 0; i < 50; i++ {
+		p := cfg.Peers[rnd.Intn(4)]
+		tn := tagNames[rnd.Intn(len(tagNames))]
+		v := vfC14ExtremeSet[rnd.Intn(len(vfC14ExtremeSet))]
+		var op vfh.Op
+		switch c := rnd.Intn(20); {
+		case c < 6:
+			op = vfh.Op{"name": "tag", "p": p, "t": tn, "v": vfC14Num(v)}
+		case c < 7:
+			op = vfh.Op{"name": "untag", "p": p, "t": tn}
+		case c < 9:
+			op = vfh.Op{"name": "upsert", "p": p, "t": tn, "set": vfC14Num(v)}
+		case c < 13:
+			op = vfh.Op{"name": "connected", "c": conns[rnd.Intn(len(conns))]}
+		case c < 14:
+			op = vfh.Op{"name": "disconnected", "c": conns[rnd.Intn(len(conns))]}
+		case c < 15:
+			op = vfh.Op{"name": []string{"protect", "unprotect"}[rnd.Intn(2)], "p": p, "x": "x"}
+		case c < 17:
+			op = vfh.Op{"name": "tick"}
+		case c < 19:
+			op = vfh.Op{"name": "trim"}
+		default:
+			op = vfh.Op{"name": "forcetrim"}
+		}
+		hist = append(hist, op)
+		var cls, what string
+		var exp, got any
+		switch op.Name() {
+		case "trim", "forcetrim":
+			force := op.Name() == "forcetrim"
+			pre := sys.pre(sys.clk.Now())
+			if !force {
+				sys.noteTrim(sys.clk.Now())
+			}
+			sys.sink.take()
+			if force {
+				sys.cm.ForceTrim()
+			} else {
+				sys.cm.TrimOpenConns(context.Background())
+			}
+			synctest.Wait()
+			closed, _ := sys.sink.take()
+			if cls, what = sys.l1Trim(force, pre, closed); cls != "" {
+				exp, got = nil, closed
+			}
+			if len(closed) > 0 {
+				res.Inc("trims_closing", 1)
+			}
+		case "tick":
+			sys.clk.Add(vfC14Unit)
+			synctest.Wait()
+		default:
+			sys.step(op) // notifications, tags, protection: keeps the ledger
+		}
+		if cls == "" {
+			cls, what, exp, got = sys.compareLedger()
+		}
+		res.Count(0, 1)
+		if cls != "" && !strings.HasPrefix(cls, "L2:") {
+			return &vfh.Mismatch{Class: cls, What: what, Walk: h, Step: i, Expected: exp, Got: got, Prefix: hist,
+				Cfg: map[string]any{"seed": seed, "low": cfg.Low, "grace_units": 1, "tag_names": tagNames}}
+		}
+	}
+	res.Count(1, 0)
+	res.Case(fmt.Sprintf("extremes-%d", h))
+	return nil
+}
